@@ -67,6 +67,7 @@ type Ctx struct {
 	start     time.Time
 	level     string
 	seq       int64
+	mode      string
 }
 
 func (c *Ctx) Quick() bool    { return c.Tier != "thorough" }
@@ -200,6 +201,12 @@ func (c *Ctx) Expired() bool {
 	return false
 }
 
+// Deadline returns the worker's budget deadline (zero = none).
+func (c *Ctx) Deadline() time.Time { return c.deadline }
+
+// Mode is the harness mode ("" or "race" for the free-running pass).
+func (c *Ctx) Mode() string { return c.mode }
+
 // Try runs f and converts a panic into (true, message).
 func Try(f func()) (panicked bool, msg string) {
 	defer func() {
@@ -257,11 +264,12 @@ func Main(chk Check) {
 	seed := flag.Int64("seed", 0, "rotates shard assignment only")
 	budget := flag.Duration("budget", 0, "wall-clock budget; hitting it ends the run with exhaustive:false")
 	replay := flag.String("replay", "", "replay file")
+	mode := flag.String("mode", "", "\"race\": free-running pass of the thread bodies for the race detector")
 	flag.Parse()
 
 	c := &Ctx{ID: chk.ID, Tier: *tier, Shard: *shard, NShards: *nshards, Seed: *seed, Replay: *replay,
 		counters: map[string]int64{}, distinct: map[string]map[uint64]struct{}{}, info: map[string]interface{}{},
-		viol: map[string]*Violation{}, caps: map[string]bool{}, maxSample: 6, start: time.Now(), level: chk.Level}
+		viol: map[string]*Violation{}, caps: map[string]bool{}, maxSample: 6, start: time.Now(), level: chk.Level, mode: *mode}
 	if *budget > 0 {
 		c.deadline = time.Now().Add(*budget)
 	}
